@@ -27,7 +27,8 @@ CLAIMED = {
          "operation list of <= 2 (3) operations over a 15-operation basis with texts; the real connector runs each list against a "
          "live simulator thread under depth {0,1,2,5} x multiple {0,100,4000} x fragment x route patterns; TLC (ClientTrace) "
          "accepts a run iff results are one per operation and explained by the tag model and no bundle mixed route paths; "
-         "parse_operations / format_path are checked against OpText.",
+         "parse_operations / attribute_operations / format_path are checked against OpText.  Operations include explicit byte-offset "
+         "fragments, Get/Set Attribute Single and bundles whose replies exceed one receive buffer.",
          "5/C12", "operations refused with a CIP status = range / type errors on existing tags; string writes not in fragment mode",
          "TLA+ client contract + TLC-emitted operation lists; real connector vs live simulator over the settings matrix, validated by TLC trace spec"),
  "C13": ("fault_enumeration",
@@ -44,7 +45,7 @@ CLAIMED = {
          "session runs the per-frame pipeline while shared parser locks and every tag-storage access are scheduling points and a "
          "controller forces TLC-emitted schedules (deterministic, reproducible); each execution's history is checked by TLC "
          "(ConcurrencyTrace) for linearizability against the tag model, plus reply routing, deadlock and exception freedom.",
-         "5/C09", "preemption only at the instrumented points (parser locks, tag storage accesses); free-running preemption at other points is not sampled yet",
+         "5/C09", "forced schedules preempt at the instrumented points (parser locks, the middle of every shared-parser run, tag storage accesses, the tag loop of logix.setup); free-running threads (switch interval 1 us, warm and cold start) sample everything else",
          "TLA+ atomic-effect model + TLC interleavings; TLC-emitted schedules forced on real threads; histories checked for linearizability by TLC"),
  "C08": ("fault_enumeration",
          "spec/Hostile.tla lays valid frames (write, read, bundle, register, forward open, set attribute single) out as named parts -- every length, count, offset, "
@@ -71,8 +72,10 @@ CLAIMED = {
          "schedule of ticks and load(limit) calls (ExactlyOnceInOrder, NotEarly, NotLate, <>all delivered); every emitted scenario is "
          "written with the real logger (rotated, gz, bz2, duplicates, comment/corrupt lines) and replayed by the real loader under a "
          "virtual clock; TLC (HistoryTrace) accepts a run iff every load returned exactly what the rule says, completion is "
-         "reported only after everything was delivered and the final register map is the last logged one.",
-         "5/C18", "integer-second timestamps; known finding F4 (files whose records share one timestamp) identified by scenario class",
+         "reported only after everything was delivered and the final register map is the last logged one.  Every run is also validated "
+         "against spec/Loader.tla, the loader as coded (LoaderTrace): a property-rejected run is the known finding F4 only if it is exactly "
+         "that algorithm's behaviour on a single-timestamp file.",
+         "5/C18", "integer-second timestamps; known finding F4 identified exactly through the as-coded model Loader.tla",
          "TLA+ delivery rule + TLC exhaustive schedules; real logger/loader runs under a virtual clock validated by TLC trace spec"),
  "C10": ("model_checking",
          "spec/Automata.tla: big-step semantics of the framework (accept/process, limit resolution, delegate with repeat cycles, "
@@ -96,7 +99,8 @@ CLAIMED = {
          "booleans, null, lists, dictionaries); TLC checks Parse(Dump(v)) = (v, <<>>) and the same in front of every tail for every "
          "value of the bounded domain; each (value, octets) vector is replayed into tnetstrings.dump / parse (exact types, "
          "remainder) and, for the types the streaming tnet_machine supports, fed whole / bytewise / at every two-way split with "
-         "every tail: same payload, exactly Len(Dump(v)) symbols consumed.",
+         "every tail: same payload, exactly Len(Dump(v)) symbols consumed; the socket-level reader tnet_from gets two-message streams "
+         "(with / without an ignored separator) whole, bytewise and at every two-way split.",
          "5/C20", "floats carried as repr text; dictionary order = insertion order",
          "TLA+ spec (Tnet) + TLC exhaustive over the value domain; vectors replayed into dump/parse and the streaming machine over all splits"),
  "C01": ("model_checking",
@@ -120,8 +124,10 @@ CLAIMED = {
          "of every service kind (successful, failing, bundles, unroutable, Unregister, distinct contexts/handles), delivered "
          "pipelined / per frame / randomly to the real server; TLC accepts only exactly one reply per complete request, in order, "
          "with echoed command/context/handle, the spec-computed SendRRData framing and CIP reply, error frame for unroutable "
-         "requests, non-zero Register handle, no reply and end of session for Unregister.",
-         "5/C06", "List* reply payloads not modelled (header only); random session handle only required non-zero",
+         "requests, non-zero Register handle, no reply and end of session for Unregister.  Connected sessions (Forward Open small / large, "
+         "SendUnitData with sequence counts, Forward Close, re-open, session-ending frames, truncations): replies re-derived by the spec and "
+         "the real Forward Open table compared with the model's after every reply and after the session.",
+         "5/C06", "List* reply payloads not modelled here (header only; their layout is C01's); random session handle only required non-zero; connection-table clean-up modelled as coded (DEVIATION notes in Server.tla)",
          "TLA+ connection model + TLC; pipelined sessions on the real server validated by TLC trace spec (replies re-derived by the spec)"),
  "C15": ("model_checking",
          "Server!RouteAccepted is the statement's decision table; the full matrix 6 personalities x 9 request route-path shapes x 4 "
@@ -142,7 +148,8 @@ CLAIMED = {
          "spec/MC_Frag.tla: a client walks Read Tag Fragmented / tiles Write Tag Fragmented against LogixOps; TLC explores every tag "
          "length, start, count, reply budget 1..2*size+3, fragment-size choice and tile order per element type and checks "
          "NeverFails, FragmentSize, Reassembly, Tiled, Progress (liveness under weak fairness); every emitted transfer is walked on "
-         "the real simulator and validated per fragment and as a whole by TLC.",
+         "the real simulator and validated per fragment and as a whole by TLC.  Unbounded: spec/FragInd.tla proves the tiling arithmetic "
+         "for any length / element size / budget as an inductive invariant with Apalache.",
          "5/C04", "fixed-size element types only (as the property states); CM-level execution; budget = Logix.MAX_BYTES",
          "TLA+ transfer model + TLC exhaustive incl. liveness; every emitted transfer replayed on the real simulator, validated by TLC (LogixTrace xfer verdict)"),
  "C05": ("model_checking",
